@@ -70,18 +70,17 @@ func SArr(k, v *Sort) *Sort {
 func SUnint(name string) *Sort { return mkSort(SKUnint, name, name, 0, nil, nil) }
 
 type Term struct {
-	Op   string
-	Args []*Term
-	Name string
-	Sort *Sort
-	IVal *big.Int
-	Vars []*Term // bound variables for forall/exists
+	Op     string
+	Args   []*Term
+	Name   string
+	Sort   *Sort
+	IVal   *big.Int
+	Vars   []*Term // bound variables for forall/exists
 	id     int
 	size   int
 	fv     bool // contains a bound variable
 	maxSeq int  // largest creation number of a Fresh symbol inside
 }
-
 
 const termShards = 256
 
@@ -91,7 +90,6 @@ type termShard struct {
 }
 
 var termShardTab [termShards]termShard
-
 
 var termSeqAtomic int64
 
